@@ -1,8 +1,161 @@
+import RichModel.Model.Wrap
+import RichModel.Gen.CellWidths
 import RichModel.Drv.Proto
-/- Driver handlers for property C02 (stub: filled in when the model is built). -/
-namespace RichModel.Drv.C02
-open RichModel RichModel.Proto
+/-
+Driver handlers for property C02 (word wrapping).
 
-def handlers : List (String × (List String → String)) := []
+Styles: a style "name" of the driver is the list of atomic style ids it combines (`σ = List Nat`):
+the atomic name `k` is `[k]` (0 = the null style ""), the `Style` object that `get_style_at_offset` computes
+is the concatenation, `==` is list equality — exactly the `Tag` algebra of `harness/lib_wrap.py`.
+
+Wire format
+  style  := id.id.id                 (at least one id)
+  span   := start,stop,style         spans := span/span/...
+  text   := plain;length;style;spans;justify;overflow;nowrap;end;tabsize      (as in Drv/C05.lean)
+  lines  := count#text|text|...
+  answer := ok:count#text@render|text@render…  | err:Name
+  render := seg/seg/…   seg := codepoints~id id id   (`-` for a style-less segment), or err:Name
+-/
+namespace RichModel.Drv.C02
+open RichModel RichModel.Proto RichModel.Wrap
+
+abbrev S := List Nat
+abbrev T := Text S
+
+def cw : Char → Nat := charWidthT Gen.cellWidths
+
+def alg : StyleAlg S := { null := [0], comb := fun l => l.flatten, eqv := fun a b => a == b }
+
+def decInt? (s : String) : Option Int := s.toInt?
+def decNat? (s : String) : Option Nat := s.toNat?
+
+def decStr? (s : String) : Option (List Char) :=
+  if s.isEmpty then some [] else (s.splitOn " ").mapM (fun t => t.toNat?.map Char.ofNat)
+
+def decOptNat? (s : String) : Option (Option Nat) := if s == "N" then some none else (decNat? s).map some
+
+def decStyle? (s : String) : Option S := (s.splitOn ".").mapM decNat?
+def encStyle (s : S) : String := ".".intercalate (s.map toString)
+
+def decSpan? (s : String) : Option (Span S) :=
+  match s.splitOn "," with
+  | [a, b, c] => do pure ⟨← decInt? a, ← decInt? b, ← decStyle? c⟩
+  | _ => none
+
+def decSpans? (s : String) : Option (List (Span S)) :=
+  if s.isEmpty then some [] else (s.splitOn "/").mapM decSpan?
+
+def encSpans (l : List (Span S)) : String :=
+  "/".intercalate (l.map (fun sp => s!"{sp.start},{sp.stop},{encStyle sp.style}"))
+
+def decJustify? : String → Option (Option Justify)
+  | "N" => some none | "d" => some (some .default) | "l" => some (some .left) | "c" => some (some .center)
+  | "r" => some (some .right) | "f" => some (some .full) | _ => none
+def encJustify : Option Justify → String
+  | none => "N" | some .default => "d" | some .left => "l" | some .center => "c" | some .right => "r" | some .full => "f"
+def decOverflow? : String → Option (Option Overflow)
+  | "N" => some none | "f" => some (some .fold) | "c" => some (some .crop) | "e" => some (some .ellipsis)
+  | "i" => some (some .ignore) | _ => none
+def encOverflow : Option Overflow → String
+  | none => "N" | some .fold => "f" | some .crop => "c" | some .ellipsis => "e" | some .ignore => "i"
+def decOptBool? : String → Option (Option Bool)
+  | "N" => some none | "0" => some (some false) | "1" => some (some true) | _ => none
+def encOptBool : Option Bool → String
+  | none => "N" | some false => "0" | some true => "1"
+def encOptNatN : Option Nat → String
+  | none => "N" | some n => toString n
+
+def decText? (s : String) : Option T :=
+  match s.splitOn ";" with
+  | [pl, len, st, sps, j, o, nw, e, ts] => do
+    pure { plain := ← decStr? pl, length := ← decInt? len, style := ← decStyle? st, spans := ← decSpans? sps,
+           justify := ← decJustify? j, overflow := ← decOverflow? o, noWrap := ← decOptBool? nw,
+           endStr := ← decStr? e, tabSize := ← decOptNat? ts }
+  | _ => none
+
+def encText (t : T) : String :=
+  ";".intercalate [encStr t.plain, toString t.length, encStyle t.style, encSpans t.spans,
+    encJustify t.justify, encOverflow t.overflow, encOptBool t.noWrap, encStr t.endStr, encOptNatN t.tabSize]
+
+def decTexts? (s : String) : Option (List T) :=
+  match s.splitOn "#" with
+  | [n, body] => if n == "0" then some [] else (body.splitOn "|").mapM decText?
+  | _ => none
+
+def encErr : PyErr → String
+  | .indexError => "err:IndexError" | .typeError => "err:TypeError" | .valueError => "err:ValueError"
+  | .assertionError => "err:AssertionError" | .zeroDivisionError => "err:ZeroDivisionError"
+  | .keyError => "err:KeyError" | .runtimeError => "err:RuntimeError"
+
+def encRender (r : Except PyErr (List (Text.RSeg S))) : String :=
+  match r with
+  | .error e => encErr e
+  | .ok segs => "/".intercalate (segs.map (fun s =>
+      encStr s.text ++ "~" ++ (match s.styles with
+        | none => "-"
+        | some ids => " ".intercalate (ids.flatten.map toString))))
+
+def encTR (t : T) : String := encText t ++ "@" ++ encRender (t.render)
+
+def ansTexts (r : Except PyErr (List T)) : String :=
+  match r with
+  | .ok l => "ok:" ++ toString l.length ++ "#" ++ "|".intercalate (l.map encTR)
+  | .error e => encErr e
+
+/-- seven flags: the six of the Text model, then `justifyNeg` -/
+def decWVariant? (s : String) : Option WVariant :=
+  match s.toList with
+  | [a, b, c, d, e, f, g] => some ⟨⟨a == '1', b == '1', c == '1', d == '1', e == '1', f == '1'⟩, g == '1'⟩
+  | _ => none
+
+def orUnmodelled (o : Option String) : String := o.getD "unmodelled"
+
+def encNats (l : List Nat) : String := toString l.length ++ ":" ++ " ".intercalate (l.map toString)
+
+def handlers : List (String × (List String → String)) := [
+  -- words(text): count:start,end,word|…
+  ("wrap_words", fun a => match a with
+    | [s] => orUnmodelled do
+      let s ← decStr? s
+      let ws := words s
+      pure (toString ws.length ++ ":" ++ "|".intercalate (ws.map (fun w => s!"{w.1},{w.2.1},{encStr w.2.2}")))
+    | _ => "bad-args"),
+  -- divide_line(text, width, fold)
+  ("wrap_divide_line", fun a => match a with
+    | [s, w, f] => orUnmodelled do
+      let s ← decStr? s
+      let w ← decNat? w
+      pure (encNats (divideLine cw s w (decBool f)))
+    | _ => "bad-args"),
+  -- text.get_style_at_offset(console, offset)
+  ("wrap_style_at", fun a => match a with
+    | [t, off] => orUnmodelled do
+      let t ← decText? t
+      let off ← decInt? off
+      if t.length < 0 then none else pure (encStyle (styleAtOffset alg t off))
+    | _ => "bad-args"),
+  -- Lines(lines).justify(console, width, justify, overflow)
+  ("wrap_justify", fun a => match a with
+    | [v, ls, w, j, o] => orUnmodelled do
+      let v ← decWVariant? v
+      let ls ← decTexts? ls
+      let w ← decNat? w
+      let j ← (← decJustify? j)
+      let o ← (← decOverflow? o)
+      if ls.any (fun t => t.length < 0) then none else pure (ansTexts (justifyLines v cw alg ls w j o))
+    | _ => "bad-args"),
+  -- text.wrap(console, width, justify=, overflow=, tab_size=, no_wrap=)
+  ("wrap_wrap", fun a => match a with
+    | [v, t, w, j, o, ts, nw] => orUnmodelled do
+      let v ← decWVariant? v
+      let t ← decText? t
+      let w ← decNat? w
+      let j ← decJustify? j
+      let o ← decOverflow? o
+      let ts ← decOptNat? ts
+      let nw ← decOptBool? nw
+      if t.length < 0 then none else pure (ansTexts (wrap v cw alg t w j o ts nw))
+    | _ => "bad-args")
+]
 
 end RichModel.Drv.C02
